@@ -626,6 +626,32 @@ def layout_score_tie(lays_ref, c):
         return False
 
 
+def score_read_leaves_struct(lays_ref, c):
+    """class of the recorded finding score_reads_past_struct_end, on a FILE: for some candidate layout
+    of filesz_to_types one of the first COUNT_FOUND_ENTRIES_MAX convertible entries has a string field
+    with no NUL byte between its first byte and the end of the entry (the CStr accessor then reads the
+    heap behind the Box: that candidate's score, and so possibly the chosen layout, is not determined
+    by the file).  A predicate of the bytes and the frozen reference layouts only."""
+    try:
+        tab = gen_tables()
+        data = open(c["plain_path"], "rb").read()
+        for n, _b in candidates(tab, lays_ref, U.case_kind(lays_ref[c["layout"]], c), len(data)):
+            lay = lays_ref[n]
+            sz, found = lay["size"], 0
+            for k in range(len(data) // sz):
+                e = data[k * sz:(k + 1) * sz]
+                if found >= tab["count_found_entries_max"]:
+                    break
+                if not any(e) or all(b == 0xFF for b in e):
+                    continue
+                found += 1
+                if any(f["kind"] == "c" and 0 not in e[f["offset"]:] for f in lay["fields"]):
+                    return True
+        return False
+    except Exception:
+        return False
+
+
 def detection_symptom(c, err, nlines):
     """the s4 binary itself (--summary) reports another layout than the one the file was written in,
     or reports none and prints nothing (FixedStructReader::new failed)"""
@@ -827,7 +853,8 @@ def evaluate(ctx, lays_ref, cases, do_b=True):
                     continue           # reader creation failed on a file of the recorded detection class
                 if impl is None:
                     if c["layout"] in UNREACHABLE or (tok[0] == "OK" and tok[1] != c["layout"]
-                                                      and (lastlog32_read_as_utmp40(c) or utmpx_read_as_freebsd(lays_ref, c) or layout_score_tie(lays_ref, c))):
+                                                      and (lastlog32_read_as_utmp40(c) or utmpx_read_as_freebsd(lays_ref, c) or layout_score_tie(lays_ref, c)
+                                                           or score_read_leaves_struct(lays_ref, c))):
                         stats["b_skipped_detection_class"] += 1
                         continue       # covered by the failing-input search (class of a recorded finding)
                     ctx.obligation_broken("correspondence", "FixedStructReader (in-process) vs Model.Records.records_out_K2",
@@ -914,6 +941,8 @@ def evaluate(ctx, lays_ref, cases, do_b=True):
                 cls.append("size_multiple_of_another_layout_with_long_strings")
             if wrong_layout and layout_score_tie(lays_ref, c):
                 cls.append("layout_score_tie")
+            if wrong_layout and score_read_leaves_struct(lays_ref, c):
+                cls.append("score_reads_past_struct_end")
             if ss_field_with_newline(lays_ref, c):
                 cls.append("netbsd_ss_field_with_newline")
             ctx.failure(case_public(c), dict(record_offsets_in_order=exp, note="Coq spec_records; python rendering shown"),
